@@ -2455,3 +2455,50 @@ def rule_incremented_digit_in_range(col, facts):
             col.check(R, "%s:digit+1" % key, ok,
                       "`%s` is turned into a digit character without having been found below the radix: the largest digit is incremented to a character that is not a digit (radix 3: `3`, radix 36: `[`)" % show(e)[:90], f.loc(f.blocks[bb]["ts"]))
     col.floor(R, "digit increments in the float writers", n, 1 if "radix" not in facts.config else 2)
+
+
+def rule_zero_exponent_normalised(col, facts):
+    """SIB-zero (float writers): zero has no leading non-zero digit, so "the position of the first non-zero
+    digit" is not its scientific exponent.  The power-of-two and hex writers set `sci_exp = 0` when the mantissa
+    is zero; the generic-radix writer derives the exponent from the count of leading `0` characters and must
+    likewise treat "all characters are zeros" apart - otherwise the scientific writer is asked for digits
+    starting past the end of the buffer and indexes an empty slice (`0.0` with required_exponent_notation
+    panicked, debug and release)."""
+    R = "SIB-zero"
+    n = 0
+    if "radix" in facts.config:
+        f = facts.fn(WF + "radix::write_float")
+        zc = None
+        for bb, c, a, d, t in f.calls():
+            if last_seg(callee_name(c)) == "ltrim_char_count" and d and not d[1]:
+                zc = d[0]
+        col.check(R, "radix::write_float:leading-zero-count", zc is not None, "the count of leading zero characters was not found", f.loc())
+        if zc is not None:
+            n += 1
+            tested = False
+            for i, b in enumerate(f.blocks):
+                if f.live(i) and b["t"]["k"] == "switch":
+                    e = strip_casts(op_expr(f, b["t"]["d"]))
+                    if e[0] == "bin" and e[1] in ("Eq", "Ne", "Lt", "Ge"):
+                        sides = [strip_casts(e[2]), strip_casts(e[3])]
+                        has_zc = any(s_[0] == "call" and last_seg(s_[1]) == "ltrim_char_count" for s_ in sides)
+                        has_len = any("PtrMetadata" in show(s_) or any(last_seg(c_[1]) == "len" for c_ in expr_calls(s_)) for s_ in sides)
+                        if has_zc and has_len:
+                            tested = True
+            col.check(R, "radix::write_float:all-zero-digits-handled", tested,
+                      "the scientific exponent is computed from the number of leading `0` characters without testing whether *all* characters are zeros: for 0.0 it comes out as -1 and write_float_scientific indexes an empty digit slice (panic with required_exponent_notation)", f.loc())
+    for mod in ("binary", "hex"):
+        f = facts.fn(WF + mod + "::write_float", required=False)
+        if f is None:
+            continue
+        n += 1
+        ok = False
+        for i, b in enumerate(f.blocks):
+            if f.live(i) and b["t"]["k"] == "switch":
+                e = strip_casts(op_expr(f, b["t"]["d"]))
+                if e[0] == "call" and last_seg(e[1]) in ("eq", "ne") and "ZERO" in show(e):
+                    ok = True
+                if e[0] == "bin" and e[1] in ("Eq", "Ne") and "ZERO" in show(e):
+                    ok = True
+        col.check(R, "%s::write_float:zero-mantissa-handled" % mod, ok, "the scientific exponent is not normalised for a zero mantissa", f.loc())
+    return n
